@@ -30,7 +30,7 @@ m = {
     "setup_cmd": "./verif.sh setup",
     "hooks": {
         "guard": "verif (Go build tag)",
-        "enable": "go1.26.8 test -c -tags verif -overlay /verif/.build/overlay.<world>.json : shim files under /verif/sim/shims are ADDED to /repo packages through the overlay (tag verif); no file in /repo is modified",
+        "enable": "go1.26.8 test -c -tags verif -overlay /verif/.build/overlay.<world>.json : shim files under /verif/sim/shims are ADDED to /repo packages through the overlay (tag verif); no file in /repo is modified. Three worlds also build, at check time and outside /repo, copies of /repo sources through the same overlay (worlds/*/prebuild.sh): conc (lib/transaction priority_queue.go and lib/utils/lru-cache as separate packages instrumented for the cooperative scheduler), chain (lib/blocktree as a separate package whose sync.RWMutex/Mutex are the scheduler's) and grandpa (lib/grandpa/finalisation.go replaced in the test binary by a copy with one added call, verifHandoff(), after each `f.actionCh <- X`; the hook is nil unless the real-driver mode sets it)",
         "baseline_off_cmd": "cd /repo && for m in . ./devnet; do (cd $m && GOFLAGS=-mod=mod go test -json -vet=off -count=1 -timeout 25m ./...); done",
         "source_commits": hooks_commits,
         "add_only": True,
